@@ -196,6 +196,11 @@ class PRODEngine(Engine):
             return warm + [["err", b, code, k, ti, p]] + [send() for _ in range(draw(st.integers(2, 5)))] + [["run", 20], ["timer"], ["run", 20], ["timer"], ["run", 20]]
         if kind == "exhaust":
             return warm + [["err", b, code, 6, ti, -1], send("tt"), ["run", 12], ["timer"], ["run", 12], ["timer"], ["run", 12], ["timer"], ["run", 12], ["timer"], ["run", 12]]
+        if kind == "leaderless":
+            # one partition loses its leader (election in progress); the client learns of it at its next metadata reload and keeps
+            # sending keyed and unkeyed messages to the topic meanwhile
+            p = draw(st.integers(0, nparts - 1))
+            return warm + [["leader", ti, p, -1]] + [send() for _ in range(draw(st.integers(2, 4)))] + [["run", 14], ["timer"], ["run", 20]] + [send() for _ in range(draw(st.integers(3, 6)))] + [["run", 20], ["timer"], ["run", 20]]
         if kind == "leadermove":
             p = draw(st.integers(0, nparts - 1))
             return warm + [["leader", ti, p, b], send(), send(), ["run", 14], ["timer"], ["run", 20], send(), ["run", 20]]
